@@ -516,6 +516,13 @@ func check(id, tier string) int {
 				case "inconclusive":
 					a.inconcl[firstWords(r.Inconcl, 6)]++
 				case "error":
+					if r.Detail == "wall-clock watchdog" {
+						// a run that did not finish within its real-time allowance (an overloaded
+						// machine, a slow race build): counted with the unfinished runs, which are
+						// tolerated up to 2 % of a batch and are harness trouble (exit 2) beyond
+						a.inconcl["run did not finish (wall-clock watchdog)"]++
+						break
+					}
 					a.errors = append(a.errors, fmt.Sprintf("seed %d: %s", seed, tail(r.Detail, 1500)))
 				}
 				if r.Verdict == "violation" {
